@@ -13,13 +13,13 @@ Tie (ctx.divergence): model vs real on (a) the option grid of scripted bodies, (
 Property oracle (ctx.violation): for the scripted scenarios the statement of C18 is evaluated directly on what the real
 code did (see `oracle`), independent of the Lean model.
 """
-import itertools, json, random, sqlite3, sys, warnings
+import itertools, json, os, random, sqlite3, sys, warnings
 
 import ponyutil
 ponyutil.add_stubs()
 from tracing import Tracer
 
-from pony.orm import Database, Required, db_session, select, commit, rollback
+from pony.orm import Database, Required, PrimaryKey, Set, db_session, select, commit, rollback, flush
 from pony.orm import core
 from pony.orm.core import TransactionError, CommitException, PonyRuntimeWarning
 import flask as flask_stub
@@ -134,15 +134,50 @@ class InvalidConfig(Exception):
     """db_session(**options) itself refused the options (constructor validation is not part of the model)"""
 
 
+# writes of the second kind: changes of many-to-many links between EXISTING objects (no entity row is saved: at flush
+# `cache.objects_to_save` is empty and only Attribute.add_m2m / remove_m2m statements run).  Encoded as write tags:
+#   LINK_ADD + k     add the k-th initially absent (student, course) pair;   LINK_REMOVE + k   remove the k-th initial pair
+LINK_ADD, LINK_REMOVE, NOBJ = 10000000, 20000000, 4
+INITIAL_PAIRS = [(i, i) for i in range(1, NOBJ + 1)]
+ABSENT_PAIRS = [(i, j) for i in range(1, NOBJ + 1) for j in range(1, NOBJ + 1) if i != j]
+
+
+def link_tags(pairs):
+    """the set of (student, course) links as the write tags that lead to it from the initial link table"""
+    pairs = set(pairs)
+    return sorted([LINK_ADD + k for k, pr in enumerate(ABSENT_PAIRS) if pr in pairs] +
+                  [LINK_REMOVE + k for k, pr in enumerate(INITIAL_PAIRS) if pr not in pairs])
+
+
 class Real(object):
     def __init__(self):
         self.tr = Tracer()
+        self.dir = ponyutil.workdir('c18')
+        self.path = os.path.join(self.dir, 'c18.sqlite')
         self.db = Database()
-        self.db.bind('sqlite', ':memory:', **self.tr.bind_kwargs())
+        @self.db.on_connect(provider='sqlite')
+        def fast(db, connection):                       # file database without fsync: only speed, not semantics
+            connection.execute('PRAGMA synchronous = OFF')
+        self.db.bind('sqlite', self.path, create_db=True, **self.tr.bind_kwargs())
         class W(self.db.Entity):
             tag = Required(int)
-        self.W = W
+        class Student(self.db.Entity):
+            id = PrimaryKey(int)
+            courses = Set('Course')
+        class Course(self.db.Entity):
+            id = PrimaryKey(int)
+            students = Set(Student)
+        self.W = W; self.Student = Student; self.Course = Course
         self.db.generate_mapping(create_tables=True)
+        with db_session:
+            for i in range(1, NOBJ + 1): Student(id=i); Course(id=i)
+        con = sqlite3.connect(self.path)
+        try:
+            self.link_table = [n for (n,) in con.execute("select name from sqlite_master where type='table'")
+                               if n.lower() not in ('w', 'student', 'course')][0]
+            cols = [r[1] for r in con.execute('pragma table_info("%s")' % self.link_table)]
+            self.link_cols = (next(c for c in cols if 'student' in c.lower()), next(c for c in cols if 'course' in c.lower()))
+        finally: con.close()
         self.app = flask_stub.Flask('c18')
         pony_flask.Pony(self.app)
         self.plugin = bottle_plugin.PonyPlugin()
@@ -152,7 +187,7 @@ class Real(object):
 
     # commit faults: the n-th connection commit that follows an INSERT fails (== the model's n-th real commit)
     def _hook(self, ev):
-        if ev['call'] == 'execute' and ev['kind'] == 'insert': self.dirty = True
+        if ev['call'] in ('execute', 'executemany') and ev['kind'] in ('insert', 'update', 'delete'): self.dirty = True
         elif ev['call'] == 'rollback': self.dirty = False
         elif ev['call'] == 'commit':
             if self.dirty:
@@ -163,9 +198,25 @@ class Real(object):
                     raise sqlite3.OperationalError('injected commit fault')
 
     def rows(self):
+        """the database as a fresh db_session sees it (write tags)"""
         with db_session:
             r = sorted(select(w.tag for w in self.W)[:])
-        return r
+            pairs = select((s.id, c.id) for s in self.Student for c in s.courses)[:]
+        return sorted(r + link_tags(pairs))
+
+    def independent_rows(self):
+        """the committed state read through an independent connection (nothing of Pony involved)"""
+        con = sqlite3.connect(self.path)
+        try:
+            tags = [r[0] for r in con.execute('select tag from W')]
+            pairs = [tuple(r) for r in con.execute('select "%s", "%s" from "%s"' % (self.link_cols + (self.link_table,)))]
+        finally: con.close()
+        return sorted(tags + link_tags(pairs))
+
+    def close(self):
+        try: self.db.disconnect()
+        except Exception: pass
+        ponyutil.rmtree(self.dir)
 
     def reset(self):
         core.local.db_context_counter = 0
@@ -173,8 +224,12 @@ class Real(object):
         try: rollback()
         except Exception: pass
         core.local.db2cache.clear()
+        self.fail = []                      # the cleanup below writes: no injected faults there
         with db_session:
             self.db.execute('delete from W')
+            self.db.execute('delete from "%s"' % self.link_table)
+            for a, b in INITIAL_PAIRS:
+                self.db.execute('insert into "%s" ("%s", "%s") values (%d, %d)' % ((self.link_table,) + self.link_cols + (a, b)))
         self.tr.events[:] = []
         self.dirty = False; self.ncommit = 0; self.fail = []
         self.trace = []; self.keep = []; self.inner_exit_events = []
@@ -198,10 +253,22 @@ class Real(object):
     def run(self, p):
         k = p['k']
         if k == 'skip': return
-        if k == 'write': self.W(tag=p['w']); return
+        if k == 'write':
+            w = p['w']
+            if w >= LINK_REMOVE:
+                a, b = INITIAL_PAIRS[w - LINK_REMOVE]; feature('branch:write-link-remove')
+                self.Student[a].courses.remove(self.Course[b])
+            elif w >= LINK_ADD:
+                a, b = ABSENT_PAIRS[w - LINK_ADD]; feature('branch:write-link-add')
+                self.Student[a].courses.add(self.Course[b])
+            else: self.W(tag=w)
+            return
+        if k == 'flush': flush(); feature('branch:explicit-flush'); return
         if k == 'mark': self.trace.append(p['n']); return
         if k == 'observe':
-            self.trace.append(sorted(select(w.tag for w in self.W)[:])); return
+            r = sorted(select(w.tag for w in self.W)[:])       # a query: flushes whatever is pending
+            pairs = select((s.id, c.id) for s in self.Student for c in s.courses)[:]
+            self.trace.append(sorted(r + link_tags(pairs))); return
         if k == 'raise': raise make_exc(p['e'])
         if k == 'seq':
             for q in p['ps']: self.run(q)
@@ -328,9 +395,8 @@ class Real(object):
             try: rollback()
             except Exception: pass
             core.local.db2cache.clear()
+        obs['raw_rows'] = self.independent_rows()        # first: what is really committed, through an independent connection
         obs['committed'] = self.rows()
-        raw = sorted(r[0] for r in self.db.provider.pool.con.execute('select tag from W').fetchall())
-        obs['raw_rows'] = raw
         for it in self.keep:
             try: it.close()
             except BaseException: pass
@@ -401,12 +467,26 @@ def seq(*ps):
     return {'k': 'seq', 'ps': list(ps)}
 
 
+LINK_POOL = []
+
+
+def reset_link_pool(rng):
+    """every (student, course) pair is touched at most once per program (an add of a present link would be a no-op)"""
+    LINK_POOL[:] = [LINK_ADD + k for k in range(len(ABSENT_PAIRS))] + [LINK_REMOVE + k for k in range(len(INITIAL_PAIRS))]
+    rng.shuffle(LINK_POOL)
+
+
 def rand_leafs(rng, base):
-    """a short straight-line body: marks, writes, maybe observe; returns list of nodes"""
+    """a short straight-line body: marks, writes (rows or m2m links), maybe observe / flush; returns list of nodes"""
     ps = [{'k': 'mark', 'n': next(MARK)}]
     if rng.random() < 0.5: ps.append({'k': 'observe'})
-    for j in range(rng.choice([0, 1, 1, 2])):
-        ps.append({'k': 'write', 'w': base + j})
+    if rng.random() < 0.75:
+        for j in range(rng.choice([0, 1, 1, 2])):
+            ps.append({'k': 'write', 'w': base + j})
+    if LINK_POOL and rng.random() < 0.3:
+        for j in range(rng.choice([1, 1, 2])):
+            if LINK_POOL: ps.append({'k': 'write', 'w': LINK_POOL.pop()})
+    if rng.random() < 0.25: ps.append({'k': rng.choice(['flush', 'observe'])})
     return ps
 
 
@@ -530,6 +610,60 @@ class Pending(object):
         self.best = {}
 
 
+def scripted_links(kind, o, ops, flush_kind, outcomes, inner=False):
+    """bodies whose only changes are many-to-many link additions / removals between existing objects, flushed explicitly
+    (`flush()`), implicitly (a query) or not at all before the body ends with outcomes[i]; execution i uses its own pairs"""
+    bodies = []; spec_bodies = []
+    for i, out in enumerate(outcomes):
+        ws = []
+        if 'add' in ops: ws.append(LINK_ADD + 2 * i)
+        if 'remove' in ops: ws.append(LINK_REMOVE + i)
+        if 'add2' in ops: ws.append(LINK_ADD + 2 * i + 1)
+        ps = [{'k': 'mark', 'n': i}, {'k': 'observe'}] + [{'k': 'write', 'w': w} for w in ws]
+        if flush_kind == 'explicit': ps.append({'k': 'flush'})
+        elif flush_kind == 'query': ps.append({'k': 'observe'})
+        if out != 'ret': ps.append({'k': 'raise', 'e': out})
+        body = seq(*ps)
+        if inner:
+            io = {'sid': next(SID)}; io.update(mk_pred(None, 'allowed', 'default')); io.update(mk_pred(None, 'retryable', 'default'))
+            body = {'k': 'with', 'o': io, 'p': body}
+        bodies.append(body)
+        spec_bodies.append({'writes': ws, 'out': out})
+    env = {'should_retry': SHOULD_RETRY, 'tx': TX, 'commit_fail': []}
+    if kind == 'decorator': prog = {'k': 'call', 'o': o, 'bodies': bodies}
+    elif kind == 'bottle': prog = {'k': 'bottle', 'resp': RESP, 'err': ERR, 'bodies': bodies}
+    elif kind == 'cm': prog = {'k': 'with', 'o': o, 'p': bodies[0]}
+    else: prog = {'k': 'flask', 'hooked': True, 'view': bodies[0]}
+    spec = {'kind': kind, 'depth': 2 if inner else 1, 'inner': ['cm'] if inner else [], 'bodies': spec_bodies,
+            'retry': o.get('retry', 0) if kind == 'decorator' else 0,
+            'allowed': o['allowed'] if kind in ('decorator', 'cm') else
+                       ({'yes': ['u6'], 'raises': []} if kind == 'bottle' else {'yes': [], 'raises': []}),
+            'retryable': o['retryable'] if kind == 'decorator' else {'yes': list(TX), 'raises': []},
+            'commit_fail': [], 'links': True}
+    return {'prog': prog, 'env': env, 'spec': spec}
+
+
+def link_grid(ctx, rng):
+    """m2m-only bodies: {add, remove, add+remove, two adds} x {explicit flush, flush by query, no flush} x outcome x
+    decorator (retry 0/1) / context manager / Flask / Bottle x (directly | inside an inner session) x strict/immediate"""
+    cases = []
+    combos = list(itertools.product([['add'], ['remove'], ['add', 'remove'], ['add', 'add2']], ['explicit', 'query', 'none'],
+                                    ['ret', 'u0', 'u2', 'u6', 'u7'], ['decorator', 'decorator1', 'cm', 'flask', 'bottle'], [False, True]))
+    if not ctx.thorough: combos = rng.sample(combos, 150) + [c for c in combos if c[2] == 'u0' and c[1] != 'none' and not c[4] and c[0] in (['add'], ['remove'])]
+    for ops, fk, out, kind, inner in combos:
+        o = {'sid': next(SID)}
+        o.update(mk_pred(rng, 'allowed', rng.choice(['default', 'list']), classes=['U2']))
+        o.update(mk_pred(rng, 'retryable', 'default'))
+        if rng.random() < 0.2: o['_strict'] = True
+        if rng.random() < 0.15: o['_immediate'] = True
+        outcomes = [out]
+        if kind == 'decorator1':
+            kind = 'decorator'; o['retry'] = 1; outcomes = ['u3', out]
+        if kind in ('flask', 'bottle'): o = {'sid': 0, 'allowed': {'yes': [], 'raises': []}, 'retryable': {'yes': list(TX), 'raises': []}}
+        cases.append(scripted_links(kind, o, ops, fk, outcomes, inner))
+    return cases
+
+
 def oracle(ctx, case, obs):
     """the statement of C18 evaluated on what the real code did (scripted scenarios only); ctx is a Pending collector"""
     spec = case['spec']; kind = spec['kind']
@@ -541,10 +675,10 @@ def oracle(ctx, case, obs):
     def allowed(e):
         return pred_result(spec['allowed'], e)[0] == 'yes'
     marks = [t for t in obs['trace'] if isinstance(t, int)]
-    saws = [t for t in obs['trace'] if isinstance(t, list)]
+    saws = [t for prev, t in zip([None] + obs['trace'], obs['trace']) if isinstance(t, list) and isinstance(prev, int)]   # what an execution saw right at its start
     n = len(marks) if kind != 'generator' else 1
-    committed = obs['committed']
-    if obs['raw_rows'] != committed:
+    committed = obs['raw_rows']           # the committed state is what an independent connection sees
+    if obs['raw_rows'] != obs['committed']:
         ctx.violation('a fresh session and the raw connection disagree about the committed rows', inp, observed=obs, key=key0 + ':raw')
     # --- retry bound, retries only for retryable exceptions
     if kind in ('decorator', 'bottle'):
@@ -611,7 +745,7 @@ def compare(ctx, case, obs, mod):
     m = {'out': mod['out'], 'committed': sorted(mod['committed']), 'counter': mod['counter'], 'session': mod['session'],
          'pending': bool(mod['pending']), 'ncommit': mod['ncommit'],
          'trace': [sorted(t) if isinstance(t, list) else t for t in mod['trace']]}
-    r = {'out': obs['out'], 'committed': obs['committed'], 'counter': obs['counter'], 'session': obs['session'],
+    r = {'out': obs['out'], 'committed': obs['raw_rows'], 'counter': obs['counter'], 'session': obs['session'],
          'pending': bool(obs['pending_caches']) and False, 'ncommit': obs['ncommit'], 'trace': obs['trace']}
     # db2cache may legitimately hold an unmodified cache only inside a session; outside it must be empty
     r['pending'] = False
@@ -732,6 +866,11 @@ def run(ctx):
     if not ctx.driver.ok:
         ctx.note('Lean driver not available: model/real tie skipped, property oracle still runs')
     real = Real()
+    try: run_all(ctx, real)
+    finally: real.close()
+
+
+def run_all(ctx, real):
     rng = ctx.rng
     # corpus / fixed regression witnesses first
     fixed = []
@@ -740,12 +879,18 @@ def run(ctx):
     fixed.append(scripted('flask', dict(o0), 1, [], ['ret']))
     fixed.append(scripted('bottle', dict(o0), 1, [], ['u6']))         # redirect: committed
     fixed.append(scripted('bottle', dict(o0), 1, [], ['u7']))         # abort: rolled back
+    ocm = {'sid': next(SID)}; ocm.update(mk_pred(rng, 'allowed', 'default')); ocm.update(mk_pred(rng, 'retryable', 'default'))
+    fixed.append(scripted_links('cm', dict(ocm), ['add'], 'explicit', ['u0']))       # only m2m links change, flush, then the body fails
+    fixed.append(scripted_links('cm', dict(ocm), ['remove'], 'query', ['u0']))
+    fixed.append(scripted_links('flask', dict(o0), ['add', 'remove'], 'explicit', ['u0']))
     run_cases(ctx, real, fixed, 'fixed')
     run_cases(ctx, real, grid(ctx, rng), 'grid')
     run_cases(ctx, real, gen_grid(ctx, rng), 'generator-grid')
+    run_cases(ctx, real, link_grid(ctx, rng), 'm2m-link-grid')
     n = ctx.scale(700, 12000)
     cases = []
     for _ in range(n):
+        reset_link_pool(rng)
         cases.append({'prog': rand_prog(rng, rng.choice([1, 2, 2, 3, 3, 4])), 'env': rand_env(rng, 0.3)})
     run_cases(ctx, real, cases, 'random')
     for k, v in sorted(FEATURES.items()): ctx.count(k, v)
@@ -761,4 +906,5 @@ def replay(ctx, data):
         inp = data['divergences'][0]['input']
     case = {'prog': inp['prog'], 'env': inp.get('env', {})}
     if 'spec' in inp: case['spec'] = inp['spec']
-    run_cases(ctx, real, [case], 'replay')
+    try: run_cases(ctx, real, [case], 'replay')
+    finally: real.close()
